@@ -274,6 +274,7 @@ func (inv *Invoice) Calculate() error {
 	if inv.HasTags(tax.TagCustomerRates) {
 		applyCustomerRates(inv)
 	}
+	dropRegimeCountry(inv)
 
 	inv.Normalize(tax.ExtractNormalizers(inv))
 
